@@ -23,3 +23,7 @@ add("C11", CH + "; collision test additionally on IEEE binary64",
 add("C05", CH + "; inductive step from an arbitrary well-formed state instead of operation histories",
     "For each of the 16 operations x modes of the property: from ANY well-formed tier within the size bound (<=2 quick / <=3 thorough entries, second operand <=1/2) and ANY arguments in [-1024,1024], the result is well-formed and validate() agrees, or a praatio error is raised; constructors from arbitrary raw entries (all finite binary64 times, unsorted/overlapping/unstripped labels). Because well-formedness is both pre- and postcondition the confirmed steps compose to histories of any length within the per-step bound.",
     NOTE + "; deleteEntry's ValueError for an absent entry is accepted as its documented behaviour", "DESIGN.md 3/C05")
+
+add("C10", CH,
+    "All-paths verdict (exact reals; A x B sizes 2x1 and 1x2 quick, up to 2x2/3x1 thorough) that union, difference, intersection and mergeLabels satisfy the cell-wise algebra of labelled time (every elementary cell between consecutive boundaries is labelled in the result iff the Boolean combination of the operands says so), with exact entry lists: one intersection entry per overlapping pair labelled a-b, fused union entries = connected components with labels joined in time order, difference = maximal runs with A's labels, mergeLabels keeps exactly A's overlapped intervals with B's labels in parentheses; point union = union of times with coinciding labels joined; operands unchanged.",
+    NOTE, "DESIGN.md 3/C10")
